@@ -43,10 +43,46 @@ def src_params(c):
     return nu, pi, p2, pur, ind, thr
 
 
+FIELDS = ("purity", "brightness", "indistinguishability", "probability_threshold")
+
+
 def make_source(c):
+    """The Source of the case. c["sform"] says how the object came to hold its values (the values are the same):
+    ctor     - constructor arguments
+    setters  - default-constructed, then every attribute assigned (order given by the case)
+    reuse    - an object that served another configuration first (statistics built for another state), was
+               re-configured through its setters, and then refused three invalid assignments
+    c["ints"]: integral values (0, 1) are passed as Python ints."""
     nu, pi, p2, pur, ind, thr = src_params(c)
-    return Source(purity=float(pur), brightness=float(nu), indistinguishability=float(ind),
-                  probability_threshold=float(thr))
+    num = (lambda x: int(x) if (c.get("ints") and x.denominator == 1) else float(x))
+    vals = dict(purity=num(pur), brightness=num(nu), indistinguishability=num(ind), probability_threshold=num(thr))
+    form = c.get("sform", "ctor")
+    if form == "ctor":
+        return Source(**vals)
+    # a default-constructed Source that is tuned in place and thrown away must not leak into later objects
+    d0 = Source()
+    d0.brightness, d0.purity, d0.indistinguishability, d0.probability_threshold = 0.3, 0.8, 0.4, 0.01
+    if form == "setters":
+        src = Source()
+    else:
+        src = Source(purity=0.9, brightness=0.7, indistinguishability=0.6)
+        src._build_statistics(lw.State([1, 0, 2]))
+        src.check_number(lw.State([2]))
+        if "st" in c:       # ... and for the very state of the case, with the other parameters
+            st = full_input(c["circ"], c["st"]) if "circ" in c else list(c["st"])
+            src._build_statistics(lw.State(list(st)))
+    order = list(FIELDS)
+    k = c.get("sorder", 0) % 4
+    order = order[k:] + order[:k]
+    for f in order:
+        setattr(src, f, vals[f])
+    if form == "reuse":
+        for f, bad in (("purity", 0.3), ("brightness", 1.5), ("indistinguishability", "x"), ("probability_threshold", -1)):
+            try:
+                setattr(src, f, bad)
+            except (ValueError, TypeError):
+                pass
+    return src
 
 
 def build_circuit(spec):
@@ -209,7 +245,9 @@ class C06:
             "input probability, inputs with bunching/gaps/heralded photons (<=3 photons <=4 modes quick, <=4 photons "
             "<=5 modes thorough), bs/ps/random-unitary circuits with 0-2 loss elements and 0-2 heralds, both backends; "
             "plus arbitrary labelled dictionaries for _remap_distribution, out-of-range and non-numeric constructor values, HOM and "
-            "single-photon (g2) configurations over the whole grid. Non-trivial: >=2 photons (or a noise photon "
+            "single-photon (g2) configurations over the whole grid; single-mode circuits; Source objects configured by constructor / setters / "
+            "re-used after another configuration and three refused assignments, ints for 0 and 1, a tuned-and-discarded default Source; Samplers that "
+            "get their source late, whose source is edited in place after a read, that share a Source, that are read twice. Non-trivial: >=2 photons (or a noise photon "
             "possible) with an imperfect source; distinct = distinct canonical JSON")
     TRUSTED = ["Backend.full_probability_distribution (per-group boson sampling distribution) is an oracle of the model: "
                "its tables are read from the real backend and passed to the model as data rounded to 1e-15 (property C04 covers it)",
@@ -311,6 +349,7 @@ class C06:
             st = self._state(rng, n, 3 if quick else 4)
             c = dict(kind="stats", nu=q(nu), pi=q(pi), p2=q(p2), thr=[0, 1], st=st)
             c["thr"] = q(self._threshold(rng, c, st))
+            c.update(sform=rng.choice(["ctor", "setters", "reuse", "reuse"]), sorder=rng.randrange(4), ints=rng.random() < 0.5)
             cases.append(c)
         # (c) sampler
         for k in range(150 if quick else 2200):
@@ -332,6 +371,17 @@ class C06:
             c = dict(kind="sampler", nu=q(nu), pi=q(pi), p2=q(p2), thr=[0, 1], st=st, circ=circ,
                      backend=rng.choice(["permanent", "slos"]))
             c["thr"] = q(self._threshold(rng, c, full_input(circ, st)))
+            c.update(sform=rng.choice(["ctor", "setters", "reuse"]), sorder=rng.randrange(4), ints=rng.random() < 0.5,
+                     shist=rng.choice([None, "late", "attr", "twice", "shared", "late", "attr"]))
+            cases.append(c)
+        # (c') single-mode circuits: every photon is bunched in the one mode; phase and loss only
+        for k in range(12 if quick else 200):
+            nu, pi, p2 = self._params(rng)
+            ops = [["ps", 0, rng.choice([0.0, 1.0, 2.5])]] + ([["loss", 0, l.numerator, l.denominator] for l in [rng.choice(LOSS)]] if rng.random() < 0.5 else [])
+            c = dict(kind="sampler", nu=q(nu), pi=q(pi), p2=q(p2), thr=[0, 1], st=[rng.choice([0, 1, 2, 2, 3 if p2 == 0 else 2])],
+                     circ=dict(n=1, ops=ops, heralds=[]), backend=rng.choice(["permanent", "slos"]),
+                     sform=rng.choice(["ctor", "setters", "reuse"]), sorder=rng.randrange(4), ints=rng.random() < 0.5,
+                     shist=rng.choice([None, "late", "attr", "twice", "shared"]))
             cases.append(c)
         # (d) _remap_distribution on arbitrary labelled dictionaries
         for _ in range(60 if quick else 1500):
@@ -353,10 +403,12 @@ class C06:
             c = dict(kind="stats", nu=q(F(1, 2)), pi=q(F(1)), p2=q(F(0)), thr=[0, 1], st=[1, 0], malformed=key)
             c[key] = q(v)
             cases.append(c)
+            cases.append(dict(c, via="setter"))
         # (f) non-numeric constructor values (implementation only: the model's universe is numbers)
         for field in ("purity", "brightness", "indistinguishability", "probability_threshold"):
-            for v in (True, "0.7", None):
+            for v in (True, "0.7", None, [], ""):
                 cases.append(dict(kind="badtype", field=field, value=v))
+                cases.append(dict(kind="badtype", field=field, value=v, via="setter"))
         return cases
 
     # -------------------------------------------------------------------- impl
@@ -364,11 +416,29 @@ class C06:
         k = c["kind"]
         if k == "stats":
             def run():
+                if c.get("via") == "setter":
+                    # an out-of-range value assigned to an existing object: rejected like in the constructor, and
+                    # the object keeps the value it had
+                    nu, pi, p2, pur, ind, thr = src_params(c)
+                    src = Source()
+                    name = {"purity": "purity", "nu": "brightness", "indist": "indistinguishability",
+                            "thr": "probability_threshold"}[c["malformed"]]
+                    val = {"purity": pur, "nu": nu, "indist": ind, "thr": thr}[c["malformed"]]
+                    before = getattr(src, name)
+                    try:
+                        setattr(src, name, float(val))
+                    except Exception:
+                        if getattr(src, name) != before:
+                            return dict(kept=False)
+                        raise
+                    return dict(accepted=True)
                 src = make_source(c)
                 st = lw.State(list(c["st"]))
                 d = src._build_statistics(st)
                 typ = -1 if not d else (1 if any(isinstance(x, AnnotatedState) for x in d) else 0)
-                return dict(type=typ, dist=canon_dist(d), total=float(sum(d.values())), n=src.check_number(st),
+                n = src.check_number(st)
+                again = canon_dist(src._build_statistics(st))         # the same object asked a third time
+                return dict(type=typ, dist=canon_dist(d), total=float(sum(d.values())), n=n, same=(again == canon_dist(d)),
                             p1=float(purity_to_prob(src.purity)), p_i=float(src.indistinguishability ** 0.5))
             try:
                 return {"ok": run()}
@@ -378,7 +448,42 @@ class C06:
             ctx = self.ctx(c)
             def run():
                 src = make_source(c)
-                smp = em.Sampler(ctx.circ, lw.State(list(c["st"])), source=src, backend=c["backend"])
+                st = lw.State(list(c["st"]))
+                hist = c.get("shist")
+                if hist == "late":
+                    # the Sampler first works with the source it created itself, the case's source is attached afterwards
+                    smp = em.Sampler(ctx.circ, st, backend=c["backend"])
+                    smp.probability_distribution  # noqa: B018
+                    smp.source = src
+                elif hist == "attr":
+                    # the attached Source object is re-configured attribute by attribute after a first read
+                    nu, pi, p2, pur, ind, thr = src_params(c)
+                    own = Source()
+                    smp = em.Sampler(ctx.circ, st, source=own, backend=c["backend"])
+                    smp.probability_distribution  # noqa: B018
+                    for f in FIELDS:
+                        setattr(own, f, getattr(src, f))
+                        if f == "brightness":
+                            try:
+                                smp.probability_distribution  # noqa: B018
+                            except Exception:  # noqa: BLE001
+                                pass
+                elif hist == "shared":
+                    # the same Source object serves another Sampler (other circuit, other input) first
+                    o = lw.Circuit(3)
+                    o.bs(0)
+                    o.bs(1)
+                    try:
+                        em.Sampler(o, lw.State([1, 1, 0]), source=src).probability_distribution  # noqa: B018
+                    except Exception:  # noqa: BLE001
+                        pass
+                    smp = em.Sampler(ctx.circ, st, source=src, backend=c["backend"])
+                else:
+                    smp = em.Sampler(ctx.circ, st, source=src, backend=c["backend"])
+                if hist == "twice":
+                    first = canon_dist(smp.probability_distribution)
+                    if canon_dist(smp.probability_distribution) != first:
+                        raise AssertionError("second read of probability_distribution differs from the first")
                 return canon_dist(smp.probability_distribution)
             try:
                 return {"ok": run()}
@@ -387,7 +492,10 @@ class C06:
                 return {"err": name if name in core.ERR_CODES.values() else "OtherError", "exc": name}
         if k == "badtype":
             try:
-                Source(**{c["field"]: c["value"]})
+                if c.get("via") == "setter":
+                    setattr(Source(), c["field"], c["value"])
+                else:
+                    Source(**{c["field"]: c["value"]})
                 return {"ok": None}
             except Exception as e:  # noqa: BLE001
                 return {"err": type(e).__name__}
@@ -504,6 +612,8 @@ class C06:
         if k == "badtype":
             return None if obs == {"err": "TypeError"} else f"non-numeric {c['field']}={c['value']!r} not rejected with TypeError: {obs}"
         if c.get("malformed"):
+            if obs == {"ok": {"kept": False}}:
+                return f"rejected assignment of an out-of-range {c['malformed']} changed the Source"
             return None if obs == {"err": "ValueError"} else f"out-of-range {c['malformed']} accepted: {str(obs)[:80]}"
         nu, pi, p2, pur, ind, thr = src_params(c)
         if "err" in obs:
@@ -519,6 +629,8 @@ class C06:
                 return f"purity_to_prob/sqrt disagree with the generator's exact roots: {o['p1']} {float(1 - p2)}"
             if o["n"] != len(o["dist"]):
                 return "check_number differs from the number of generated inputs"
+            if o.get("same") is False:
+                return "the same Source object gives different statistics for the same state when asked again"
             if any(len(kk) != n for kk, _ in o["dist"]):
                 return "an input state has the wrong number of modes"
             if any(v < 0 for _, v in o["dist"]):
